@@ -226,13 +226,16 @@ func recScenario(p map[string]any) *Scenario {
 				mustNil(os.MkdirAll(q, 0o755))
 			}
 		}
-		mk("w/r/dir1/c1", "w/r/dir10/c10", "w/r/sub/d", "w/r/sub2/d", "w/r2/x", "w/out")
+		mk("w/r/dir1/c1", "w/r/dir10/c10", "w/r/sub/d", "w/r/sub2/d", "w/r2/x", "w/out", "w/r/empty")
 		for _, f := range []string{"w/r/f", "w/r/dir1/f", "w/r/dir10/f", "w/r/sub/f", "w/r/sub2/f", "w/r/sub/d/f", "w/r/sub2/d/f", "w/r2/x/f"} {
 			mustNil(os.WriteFile(f, []byte("x"), 0o644))
 		}
 		w, err := x.NewWatcher(-1)
 		mustNil(err)
-		x.Consume(w, "consumer", ConsumerMode{Events: true, Errors: true})
+		lateq := pstr(p, "late", "") == "q" // no consumer while the history runs: the reader parks on the first event of each batch
+		if !lateq {
+			x.Consume(w, "consumer", ConsumerMode{Events: true, Errors: true})
+		}
 		r := &recState{x: x, w: w, fd: fsnotify.VerifFd(w), wdIno: map[int]uint64{}, roots: map[string]bool{}, retired: map[int]int64{},
 			cookies: map[uint32]string{}, lastPath: map[uint64]string{}}
 		x.Vars["rec"] = r
@@ -282,7 +285,16 @@ func recScenario(p map[string]any) *Scenario {
 			r.checkpoint()
 		}
 		for _, op := range ops {
-			do(op)
+			for _, part := range strings.Split(op, ";;") {
+				do(strings.TrimSpace(part))
+			}
+			x.Quiesce()
+			if !lateq {
+				r.checkpoint()
+			}
+		}
+		if lateq {
+			x.Consume(w, "consumer", ConsumerMode{Events: true, Errors: true})
 			x.Quiesce()
 			r.checkpoint()
 		}
@@ -312,6 +324,9 @@ func recScenario(p map[string]any) *Scenario {
 				if pr.Cat == "name" || pr.Cat == "phantom" {
 					// an event under a path that does not exist / was never watched is a phantom in C02's sense too
 					out = append(out, Violation{Property: "C02", Signature: "recursive: " + pr.Cat + ": " + pr.Sig, Detail: pr.Detail})
+				}
+				if pr.Cat == "name" {
+					out = append(out, Violation{Property: "C08", Signature: "recursive: " + pr.Cat + ": " + pr.Sig, Detail: pr.Detail})
 				}
 			}
 		}
